@@ -10,7 +10,7 @@ R == Rec[i]
 F(r, k, d) == IF k \in DOMAIN r THEN r[k] ELSE d
 Reset == IsEvent("Reset") /\ st' = Fresh
 Op    == IsEvent("Op") /\ OpOk(R.op, R.c, F(R, "via", "none"), F(R, "cmd", "none"), R.ok, F(R, "code", ""), F(R, "fresh", TRUE), st)
-                       /\ st' = AfterOp(R.op, R.c, F(R, "via", "none"), F(R, "cmd", "none"), R.ok, F(R, "code", ""), F(R, "fresh", TRUE), F(R, "idx", 0), st)
+                       /\ st' = AfterOp(R.op, R.c, F(R, "via", "none"), F(R, "cmd", "none"), R.ok, F(R, "code", ""), F(R, "fresh", TRUE), F(R, "idx", 0), F(R, "ms", 0), st)
 State == IsEvent("State") /\ StateOk(R.fabrics, R.sessions, R.resum, R.fs.armed, R.fs.flags, R.im_dead, st)
                           /\ st' = AfterState(R.fabrics, R.sessions, R.resum, R.fs.armed, R.fs.flags, R.im_dead, st)
 Other == i <= Len(Rec) /\ Rec[i].ev \in {"End", "StoryError"} /\ i' = i + 1 /\ UNCHANGED st
